@@ -106,7 +106,9 @@ class Index:
 
     def eval_const(self, e):
         k = e.get('kind')
-        if k == 'ConstantExpr' and 'value' in e: return int(e['value'])
+        if k == 'ConstantExpr' and 'value' in e:
+            v = e['value']
+            return {'true': 1, 'false': 0}.get(v) if v in ('true', 'false') else int(v)
         if k in TRANSPARENT or k in ('ParenExpr', 'CStyleCastExpr', 'CXXStaticCastExpr', 'CXXFunctionalCastExpr'):
             return self.eval_const(kids(e)[-1])
         if k == 'IntegerLiteral': return int(e['value'])
@@ -375,6 +377,8 @@ class Emitter:
         if t.kind == 'prim' and t.name == 'void': return f"((void){self.ex(sub)})"
         if t.kind in ('rec', 'pair', 'tuple', 'sv', 'string'): return self.ex(sub)
         if t.kind == 'ref': return self.ex(sub)
+        if e.get('castKind') == 'IntegralToPointer' or (t.kind == 'ptr' and 'type' in sub and self.ct(sub['type']).kind == 'prim' and self.strip(sub).get('kind') not in ('CXXNullPtrLiteralExpr',)):
+            return f"(({self.cn(t)})y_int2ptr((uint64_t)({self.ex(sub)})))"
         return f"(({self.cn(t)}){self.ex(sub)})"
     def ex_CStyleCastExpr(self, e): return self.cast_to(e)
     def ex_CXXStaticCastExpr(self, e):
@@ -951,8 +955,18 @@ class Emitter:
         for p in call.get('inner', []):
             if p.get('kind') == 'ParmVarDecl': params.append(self.decl(self.ct(p['type']), p['name']))
         self.cur_ret = self.ret_type(call)
-        rt = self.cn(self.ty.parse(self.cur_ret))
         cs = [c for c in call['inner'] if c.get('kind') == 'CompoundStmt'][0]
+        if self.cur_ret.strip() == 'auto':
+            def find_ret(n):
+                if isinstance(n, dict):
+                    if n.get('kind') == 'ReturnStmt' and kids(n): return kids(n)[0]['type'].get('desugaredQualType', kids(n)[0]['type']['qualType'])
+                    if n.get('kind') == 'LambdaExpr': return None
+                    for c in n.get('inner', []):
+                        r = find_ret(c)
+                        if r: return r
+                return None
+            self.cur_ret = find_ret(cs) or 'void'
+        rt = self.cn(self.ty.parse(self.cur_ret))
         # inside the body, by-reference captures are pointers: temporarily mark them
         saved = dict(self.local_names); marks = []
         body = self.with_capture_refs(caps, lambda: self.st(cs, 0))
